@@ -22,6 +22,10 @@ def inf_cases(rng, n):
         m = rng.randint(1, 10)
         ng = rng.randint(1, 3)
         vals = [rng.choice([-2, 0, 3, "inf", "-inf", "inf", "-inf", "nan"]) for _ in range(m)]
+        if rng.random() < 0.3:
+            # groups whose only valid members ARE the internal sentinel (-inf for max, +inf for min), next to NaNs
+            sent = "-inf" if "max" in func else "inf"
+            vals = [rng.choice([sent, sent, "nan", "nan", 0]) for _ in range(m)]
         if not func.startswith("nan") and rng.random() < 0.7:
             vals = [v if v != "nan" else "inf" for v in vals]
         c = {"func": func, "vals": vals, "labels": G.rand_labels(rng, m, ng), "engine": rng.choice(ENGINES)}
